@@ -304,3 +304,43 @@ def rule_one_shot_flags(ctx):
         else:
             ctx.holds("ONESHOT", key, f.where(), "%s.%s == %d on every non-failing exit" % (rec, fld, val))
     return n
+
+
+def rule_lazy_tree(ctx):
+    """LAZYTREE (C11): the per-type annotation trees are built lazily; `an_num[type] == -1` means 'not built yet'.  Every
+    routine that finds the tree missing must build it *from the file* (ANIcreate_ann_tree); starting an empty tree there makes
+    the annotations already in the file invisible.  Only ANIcreate_ann_tree itself may create the tree with tbbtdmake."""
+    from .codec import ast_walk, ast_calls
+    from .facts import mem_field
+    prog = ctx.prog
+    n = 0
+    for f in prog.lib_funcs():
+        if not f.rel.endswith("mfan.c"):
+            continue
+        found = []
+
+        def vis(nn, st):
+            if nn[0] == "if":
+                c = strip(nn[1])
+                if kind(c) == "bin" and c[1] == "==" and is_int(c[3]) and int_val(c[3]) == -1:
+                    l = strip(c[2])
+                    if kind(l) == "idx" and (mem_field(l[1]) or (0, 0))[1] == "an_num":
+                        found.append(nn)
+            return True
+        ast_walk(f.raw.get("ast"), vis)
+        for i, nn in enumerate(found):
+            n += 1
+            key = "LAZYTREE:%s#%d" % (f.name, i + 1)
+            calls = {c[1] for c in ast_calls(nn[2])}
+            if f.name == "ANIcreate_ann_tree":
+                if "tbbtdmake" in calls:
+                    ctx.holds("LAZYTREE", key, f.where(), "the builder itself creates the tree and then loads the file's annotations", nontrivial=False)
+                else:
+                    ctx.unrecognised("LAZYTREE", key, f.where(), "ANIcreate_ann_tree no longer creates the tree in its `an_num == -1` branch")
+            elif "ANIcreate_ann_tree" in calls:
+                ctx.holds("LAZYTREE", key, f.where(), "missing tree is built from the file", nontrivial=True)
+            else:
+                ctx.violated("LAZYTREE", key, f.where(), "%s finds the annotation tree missing and does not build it with ANIcreate_ann_tree (calls: %s): annotations already in the file become invisible" % (
+                    f.name, ", ".join(sorted(c for c in calls if c)) or "none"))
+    ctx.floor("LAZYTREE", 5, n, "(tests of `an_num[type] == -1` in mfan.c)")
+    return n
